@@ -265,6 +265,13 @@ Qed.
 Lemma has_false m k : has m k = false -> ~ In k (keys m).
 Proof. intros H Hin. apply has_true in Hin. congruence. Qed.
 
+(* the replacement-by-TunnelID shortcut: full registry, new ConnID, known TunnelID => one entry more than the limit;
+   the code refuses the same registration *)
+Lemma treg_tid_skip_refuted :
+  length (snd (treg_tid_skip_apply 2 true 3 3 [(1, 1); (2, 2)]%N)) = 3 /\
+  treg_apply 2 (RReg 3 3) [(1, 1); (2, 2)]%N = (RRefused, [(1, 1); (2, 2)]%N).
+Proof. vm_compute. auto. Qed.
+
 Lemma creg_inv max o m : RInv max m -> RInv max (snd (creg_apply max o m)).
 Proof.
   intros [Hn Hc]. unfold creg_apply. destruct o as [id t|id|id cl].
